@@ -542,6 +542,96 @@ def check_long_session(n_other):
     return None
 
 
+def check_colliding_hashes(_):
+    """unequal parameter values whose Python hashes are EQUAL (hash(-1) == hash(-2); hash(n) == hash(n + 2**61 - 1);
+    hash(1.0) == hash(1) across fields; 0.0 / -0.0 aside): unequal calls -> distinct modules, each body run, names differ"""
+    import hdl21 as h
+    runs = []
+
+    @h.paramclass
+    class HP:
+        off = h.Param(dtype=int, desc="offset", default=0)
+        g = h.Param(dtype=float, desc="gain", default=0.0)
+
+    @h.generator
+    def Coll(p: HP) -> h.Module:
+        runs.append((p.off, p.g))
+        m = h.Module()
+        m.a = h.Port()
+        m.tag = h.Signal(width=(abs(p.off) % 5) + 1)
+        return m
+    M = 2 ** 61 - 1
+    groups = [[dict(off=-1), dict(off=-2)], [dict(off=0), dict(off=M)], [dict(off=1), dict(off=M + 1)], [dict(off=5), dict(off=5 + M), dict(off=5 + 2 * M)],
+              [dict(off=-1, g=2.0), dict(off=-2, g=2.0)], [dict(off=3, g=float(M)), dict(off=3, g=0.0)], [dict(off=-M), dict(off=2 * M)]]
+    for grp in groups:
+        w = {"case": f"colliding-hashes/{grp}"}
+        if len({hash(HP(**kw)) for kw in grp}) != 1 and len({hash(tuple(sorted(kw.items()))) for kw in grp}) != 1:
+            continue                    # (this interpreter does not collide them: nothing to learn here)
+        mods = []
+        for kw in grp:
+            n0 = len(runs)
+            m = Coll(**kw)
+            if len(runs) != n0 + 1 or runs[-1] != (HP(**kw).off, HP(**kw).g):
+                return ("memo.unequal-calls-shared", f"Coll({kw}) did not run its body (another call's module was handed out)", w)
+            if Coll(HP(**kw)) is not m:
+                return ("memo.forgotten", f"Coll({kw}) repeated returns another module", w)
+            mods.append(m)
+        if len({id(m) for m in mods}) != len(mods):
+            return ("memo.unequal-calls-shared", f"unequal calls {grp} share a module", w)
+        top = h.Module(name="CollTop")
+        for k, m in enumerate(mods):
+            top.add(h.Signal(name=f"s{k}"))
+            top.add(m(a=top.get(f"s{k}")), name=f"u{k}")
+        try:
+            pkg = h.to_proto(top)
+        except Exception as e:
+            return ("names.export", f"design holding {grp} does not export: {str(e)[:140]}", w)
+        names = [pm.name for pm in pkg.modules if "Coll(" in pm.name]
+        if len(set(names)) != len(mods):
+            return ("names.distinct", f"{len(mods)} unequal calls exported under {sorted(set(names))}", w)
+    return None
+
+
+def check_uncached_sweep(n):
+    """a sweep over a generator declared without caching, every result dropped at once (so parameter objects and modules
+    die and their addresses come back): each module's name is the name of ITS OWN parameters - the one a fresh call with
+    those values in a long-lived setting gets - and unequal values never share a name"""
+    import gc
+    import hdl21 as h
+
+    @h.paramclass
+    class UP:
+        n = h.Param(dtype=int, desc="n", default=0)
+
+    try:
+        @h.generator(enable_cache=False)
+        def Fresh(p: UP) -> h.Module:
+            m = h.Module()
+            m.a = h.Port()
+            m.tag = h.Signal(width=p.n + 1)
+            return m
+    except TypeError:
+        return None                     # (this library version has no uncached generators)
+    w = {"case": f"uncached-sweep/{n}"}
+    names = {}
+    for rnd in range(3):
+        for k in range(n):
+            m = Fresh(n=k) if rnd != 1 else Fresh(UP(n=k))
+            if m.tag.width != k + 1:
+                return ("memo.unequal-calls-shared", f"Fresh(n={k}) handed out a module built for other parameters", w)
+            names.setdefault(k, set()).add(m.name)
+            m = None
+            gc.collect()
+    multi = {k: v for k, v in names.items() if len(v) > 1}
+    if multi:
+        k = sorted(multi)[0]
+        return ("names.one-module-two-names", f"calls with n={k} were named {sorted(multi[k], key=str)} over three sweeps", w)
+    flat = [next(iter(v)) for v in names.values()]
+    if None not in flat and len(set(flat)) != len(flat):
+        return ("names.distinct", f"{len(flat)} unequal uncached calls carry {len(set(flat))} names", w)
+    return None
+
+
 def check_memo_after_failure(kind):
     """memoisation is for good: the module a call returned is returned again after its elaboration (alone / inside a
     parent / inside a generated parent) has failed; the body does not run again"""
@@ -872,6 +962,12 @@ def run(ctx):
                     rule="a generator call repeated after N other cached generator calls (plain and nested) returns the "
                          "first module, without running the body again; a design holding both exports",
                     bound="N = 3000 (20000 thorough)", key_of=repr)
+    ctx.run_bounded("colliding-hashes", ["all"], check_colliding_hashes,
+                    rule="unequal parameter values whose hashes are equal (-1 / -2; n / n + 2**61 - 1; in one and in two fields): "
+                         "each call runs its body, modules distinct, export names distinct", bound="7 groups of 2-3 values", key_of=repr)
+    ctx.run_bounded("uncached-sweep", [60], check_uncached_sweep,
+                    rule="three sweeps over an uncached generator with every result dropped at once (addresses come back): "
+                         "one value one name, unequal values unequal names", bound="60 values x 3 sweeps", key_of=repr)
     ctx.run_bounded("paramclass-fields", ["all"], check_paramclass_fields,
                     rule="dataclass fields of every paramclass importable from hdl21 + the family's shapes: compare and "
                          "hash flags", bound="all paramclasses of the library", key_of=repr)
